@@ -926,6 +926,12 @@ impl ActTask for Arc<Task> {
     fn next(&self, ctx: &Context) -> Result<bool> {
         ctx.set_task(self);
         let mut is_next = false;
+        // what the task ended with is written before its successor is scheduled: the scheduler
+        // thread may start the successor at once, and its condition reads this data
+        let was_completed = self.state().is_completed();
+        if was_completed {
+            self.update_data(&ctx.vars());
+        }
         if ctx.task().state().is_next() {
             is_next = match &self.node.content {
                 NodeContent::Workflow(data) => data.next(ctx)?,
@@ -936,7 +942,9 @@ impl ActTask for Arc<Task> {
         }
         debug!("is_next:{} task={:?}", is_next, ctx.task());
         if self.state().is_completed() {
-            self.update_data(&ctx.vars());
+            if !was_completed {
+                self.update_data(&ctx.vars());
+            }
             ctx.emit_task(self)?;
 
             if !is_next && !ctx.task().is_event_processed() {
